@@ -255,8 +255,9 @@ def write_evidence(ctx, n_viol, n_known):
         wall_s=round(time.time() - ctx.t0, 2),
         violations=n_viol, known_findings_matched=n_known,
     )
-    d = VERIF / 'evidence'
-    d.mkdir(exist_ok=True)
+    # (growth modules G.. are not listed properties: their evidence lives apart from evidence/<property>.json)
+    d = VERIF / ('growth/evidence' if ctx.prop.startswith('G') else 'evidence')
+    d.mkdir(parents=True, exist_ok=True)
     (d / (ctx.prop + '.json')).write_text(json.dumps(ev, indent=1, default=str) + '\n')
 
 
@@ -308,7 +309,7 @@ def main(argv=None):
         for k in known:
             print('KNOWN-FINDING: property=%s %s [%s; %d matching case(s) this run]' % (
                 prop, k['what'], k['key'], len(matched.get(k['key'], []))))
-        rdir = VERIF / 'evidence' / 'replay' / prop
+        rdir = VERIF / ('growth/evidence' if prop.startswith('G') else 'evidence') / 'replay' / prop
         if rdir.exists():
             shutil.rmtree(rdir)
         n = 0
